@@ -48,6 +48,7 @@ fn c19_union_find_closure() {
 //@ property: C19
 //@ tier: quick
 //@ cap_s: 400
+//@ mem_gb: 12
 //@ encodes: UnionFind::{new,find,union,connected}
 //@ symbolic: two union(x,y) calls with symbolic x,y in 0..3, then a repeated union and a self union
 //@ bound: 3 elements, 2 + 2 unions
@@ -67,18 +68,11 @@ fn c19_union_find_equivalence_and_counts() {
     let mut roots = 0; let mut i = 0;
     while i < 3 { if uf.find(i) == i { roots += 1; } i += 1; }
     assert!(roots == 3 - merges, "class count disagrees with the number of successful merges");
-    let mut a = 0;
-    while a < 3 {
-        assert!(uf.connected(a, a));
-        let mut b = 0;
-        while b < 3 {
-            assert!(uf.connected(a, b) == uf.connected(b, a));
-            let mut c = 0;
-            while c < 3 { if uf.connected(a, b) && uf.connected(b, c) { assert!(uf.connected(a, c)); } c += 1; }
-            b += 1;
-        }
-        a += 1;
-    }
+    assert!(uf.connected(0, 0) && uf.connected(1, 1) && uf.connected(2, 2));
+    assert!(uf.connected(0, 1) == uf.connected(1, 0) && uf.connected(0, 2) == uf.connected(2, 0) && uf.connected(1, 2) == uf.connected(2, 1));
+    if uf.connected(0, 1) && uf.connected(1, 2) { assert!(uf.connected(0, 2)); }
+    if uf.connected(0, 2) && uf.connected(2, 1) { assert!(uf.connected(0, 1)); }
+    if uf.connected(1, 0) && uf.connected(0, 2) { assert!(uf.connected(1, 2)); }
     kani::cover!(merges == 2);
     kani::cover!(merges == 0);
     std::mem::forget(uf);
